@@ -48,8 +48,8 @@ func runC12Webhook(c *Ctx) {
 		for i, t := range cases {
 			a := &AdmitCase{Res: "namespaces", Op: admissionv1.Update, Name: "team", NS: "team", User: "u", ExpireAfter: -1, Remaining: t.d, Pods: lister.pods,
 				Defaults: admissionapi.PodSecurityDefaults{Enforce: "privileged", EnforceVersion: "latest", Audit: "privileged", AuditVersion: "latest", Warn: "privileged", WarnVersion: "latest"},
-				Obj: ObjSpec{Kind: "namespace", NSName: "team", Labels: map[string]string{api.EnforceLevelLabel: []string{"baseline", "restricted"}[(round+i)%2]}},
-				Old: ObjSpec{Kind: "namespace", NSName: "team", Labels: map[string]string{}}}
+				Obj:      ObjSpec{Kind: "namespace", NSName: "team", Labels: map[string]string{api.EnforceLevelLabel: []string{"baseline", "restricted"}[(round+i)%2]}},
+				Old:      ObjSpec{Kind: "namespace", NSName: "team", Labels: map[string]string{}}}
 			target := ts.URL + "/"
 			if t.param != "" {
 				target += "?timeout=" + url.QueryEscape(t.param)
